@@ -232,7 +232,8 @@ static void xmi2mid_write4(struct xmi2mid_xmi_ctx *ctx, uint32_t val)
 }
 
 static void xmi2mid_seeksrc(struct xmi2mid_xmi_ctx *ctx, uint32_t pos) {
-    ctx->src_ptr = ctx->src + pos;
+    size_t size = (size_t)(ctx->src_end - ctx->src);
+    ctx->src_ptr = ctx->src + ((pos < size) ? pos : size);
 }
 
 static void xmi2mid_seekdst(struct xmi2mid_xmi_ctx *ctx, uint32_t pos) {
@@ -244,6 +245,12 @@ static void xmi2mid_seekdst(struct xmi2mid_xmi_ctx *ctx, uint32_t pos) {
 
 static void xmi2mid_skipsrc(struct xmi2mid_xmi_ctx *ctx, int32_t pos) {
     ctx->src_ptr += pos;
+}
+
+/* Skips a length taken from the file: always forward, never past the end of the source */
+static void xmi2mid_skipdata(struct xmi2mid_xmi_ctx *ctx, uint32_t len) {
+    size_t left = xmi2mid_srcleft(ctx);
+    ctx->src_ptr += (len < left) ? len : left;
 }
 
 static void xmi2mid_skipdst(struct xmi2mid_xmi_ctx *ctx, int32_t pos) {
@@ -1013,7 +1020,7 @@ static int32_t xmi2mid_ConvertFiletoList(struct xmi2mid_xmi_ctx *ctx, const xmi2
                 } else if (dat == 0x51 && tempo_set) /* Skip any other tempo changes */
                 {
                     xmi2mid_GetVLQ(ctx, &dat);
-                    xmi2mid_skipsrc(ctx, dat);
+                    xmi2mid_skipdata(ctx, dat);
                     break;
                 }
 
@@ -1168,12 +1175,13 @@ static uint32_t xmi2mid_ExtractTracksFromXmi(struct xmi2mid_xmi_ctx *ctx) {
             }
 
         rbrn_nodata:
-            xmi2mid_seeksrc(ctx, begin + ((len + 1) & ~1));
+            xmi2mid_seeksrc(ctx, begin);
+            xmi2mid_skipdata(ctx, (len + 1) & ~1);
             continue;
         }
 
         if (memcmp(buf, "EVNT", 4)) {
-            xmi2mid_skipsrc(ctx, (len + 1) & ~1);
+            xmi2mid_skipdata(ctx, (len + 1) & ~1);
             continue;
         }
 
@@ -1204,7 +1212,8 @@ static uint32_t xmi2mid_ExtractTracksFromXmi(struct xmi2mid_xmi_ctx *ctx) {
         num++;
 
         /* go to start of next track */
-        xmi2mid_seeksrc(ctx, begin + ((len + 1) & ~1));
+        xmi2mid_seeksrc(ctx, begin);
+        xmi2mid_skipdata(ctx, (len + 1) & ~1);
 
         /* clear branch points */
         for (unsigned i = 0; i < 128; ++i)
@@ -1272,7 +1281,7 @@ badfile:    /*_WM_GLOBAL_ERROR(__FUNCTION__, __LINE__, WM_ERR_CORUPT, "(too shor
 
                 if (memcmp(buf, "INFO", 4)) {
                     /* Must align */
-                    xmi2mid_skipsrc(ctx, (chunk_len + 1) & ~1);
+                    xmi2mid_skipdata(ctx, (chunk_len + 1) & ~1);
                     i += (chunk_len + 1) & ~1;
                     continue;
                 }
@@ -1292,7 +1301,8 @@ badfile:    /*_WM_GLOBAL_ERROR(__FUNCTION__, __LINE__, WM_ERR_CORUPT, "(too shor
 
             /* Ok now to start part 2
              * Goto the right place */
-            xmi2mid_seeksrc(ctx, start + ((len + 1) & ~1));
+            xmi2mid_seeksrc(ctx, start);
+            xmi2mid_skipdata(ctx, (len + 1) & ~1);
             if (xmi2mid_getsrcpos(ctx) + 12 > file_size)
                 goto badfile;
 
